@@ -44,7 +44,11 @@ def run_case(case, ctx):
             acts = res.actions
             # first pass: everything after EndForward up to first EndReverse
             a0, b0 = res.pass_slices[0]
-            ef = next(i for i in range(a0, b0) if acts[i][0] == "EndForward")
+            ef = next((i for i in range(a0, b0)
+                       if acts[i][0] == "EndForward"), None)
+            if ef is None:      # C02's business; compare from the first
+                ef = next((i for i in range(a0, b0)
+                           if acts[i][0] != "Forward"), a0) - 1
             first = acts[ef + 1:b0]
             for k, (a, b) in enumerate(res.pass_slices[1:], start=2):
                 ex.ck("C09", "repeat_equals_first_pass", acts[a:b] == first,
